@@ -19,12 +19,27 @@ R4 without rollback the first failure fails the workflow: `DummyFailureManager.r
    normal exit and raises the exception it received; every other concrete `FailureManager.recover`
    either never returns normally or reaches the guarded counter of R1.
 R5 (added) every coroutine call on the counting path is awaited.
+R6 (added) an unrecovered failure fails the workflow: every call site of `FailureManager.recover` (whole
+   program; the `recoverable` wrapper today) lets the exception of `recover` propagate - no path from the
+   exception edge of the call to a normal return, handlers that only catch cancellation excluded; every
+   call site of a function decorated with `core.recovery.recoverable` (enumerated through the decorator,
+   not by name) either lets the exception that leaves the wrapper propagate or records the failure on
+   every path from its handlers to the normal exit: `await <step>.terminate(Status.FAILED)`, or
+   `<v> = Status.FAILED` with `<v>` the value of every later return and not re-assigned afterwards.  When
+   the exception can leave a helper, its awaiting callers inherit the obligation (2 levels).  What happens
+   to the recorded status afterwards (reduction, executor raise) is C04.R4-R6.
+
+Atoms of the guards of `_update_request` outside the (version, max_retries) vocabulary (a flag parameter, a
+comparison of job names, a call) are not an analysis error: they range over both truth values - a parameter
+that is never re-bound over the constants its call sites / default bind (whole-program call index, untyped
+receivers included) - and are reported in the valuation for which the bound is not tested.
 Undecided: the exact number of executions.
 """
 
 from __future__ import annotations
 
 import ast
+import itertools
 
 from ..cfg import ALL, NORMAL
 from ..dataflow import defs_of, origins
@@ -40,15 +55,21 @@ from ._util_D import (
     REQ,
     RFM,
     STATUS,
+    STEP_FILE,
     Uninterpretable,
     attr_writes,
     bind_args,
     branch_edges,
+    call_sites,
+    funcs_mentioning,
+    handler_names,
     check_awaited,
     check_defined,
+    effective_test,
     is_awaited,
     mentions,
     param_of_type,
+    param_truth_domain,
     receiver_may_be,
     recovering_statuses,
     resolves_to,
@@ -62,7 +83,10 @@ META = {
         "Who-may-write table of RecoveryRequest.version over the whole program; finite-domain tabulation (P10) of the "
         "guards of `_update_request` by walking its CFG for each valuation of (max_retries, version); CFG "
         "must-pass-through / dominance for the counting of every recovery and the propagation of the exhaustion; "
-        "fold of `is_recovering` over the Status enum; exit analysis of every FailureManager.recover. Decides that "
+        "fold of `is_recovering` over the Status enum; exit analysis of every FailureManager.recover; exception-edge "
+        "reachability from every call of FailureManager.recover and of every @recoverable phase to the caller's normal "
+        "exit (must pass a recorded Status.FAILED). Guard atoms that are neither the counter nor the limit are enumerated "
+        "over both truth values (parameters: over the constants bound by their call sites). Decides that "
         "each recovery attempt of a job passes the guarded counter exactly once and that exhaustion raises an "
         "unrecoverable exception; it does not count executions."
     ),
@@ -108,8 +132,53 @@ def _val(f, e, env, depth=0):
     raise Uninterpretable(unparse(e))
 
 
+def _atom_key(f, e):
+    """Identity of an atom outside the (version, max_retries) vocabulary.  A parameter that is never
+    re-bound has one value per activation (its occurrences are correlated); anything else is an
+    independent unknown per occurrence."""
+    x = strip(e)
+    if isinstance(x, ast.Name) and x.id in f.params and all(d.kind == "param" for d in defs_of(f, x.id)):
+        return ("param", x.id)
+    return ("expr", id(e))
+
+
+def _interpretable(f, e) -> bool:
+    try:
+        _val(f, e, {"max": 1, "version": 1})
+    except _Crash:
+        return True
+    except Uninterpretable:
+        return False
+    return True
+
+
+def _free_atoms(f, e, out=None) -> dict:
+    """key -> atom expression, for the atoms of guard `e` that `_val` cannot evaluate."""
+    out = {} if out is None else out
+    if isinstance(e, ast.BoolOp):
+        for v in e.values:
+            _free_atoms(f, v, out)
+    elif isinstance(e, ast.UnaryOp) and isinstance(e.op, ast.Not):
+        _free_atoms(f, e.operand, out)
+    elif isinstance(e, ast.Compare):
+        if not all(_interpretable(f, x) for x in [e.left, *e.comparators]) or not all(
+            isinstance(op, (ast.Is, ast.IsNot, ast.Eq, ast.NotEq, ast.Lt, ast.LtE, ast.Gt, ast.GtE)) for op in e.ops
+        ):
+            out.setdefault(_atom_key(f, e), e)
+    elif not _interpretable(f, e):
+        out.setdefault(_atom_key(f, e), e)
+    return out
+
+
 def _truth(f, e, env):
-    """Fold a guard; raises Uninterpretable for atoms outside the (version, max_retries) vocabulary."""
+    """Fold a guard over env = {version, max, free: {atom key: bool}}.  Atoms outside the
+    (version, max_retries) vocabulary take the truth value `env['free']` gives them (the caller
+    enumerates both); Uninterpretable only when the caller did not provide one."""
+    free = env.get("free") or {}
+    if free and not isinstance(e, (ast.BoolOp,)) and not (isinstance(e, ast.UnaryOp) and isinstance(e.op, ast.Not)):
+        k = _atom_key(f, e)
+        if k in free:
+            return free[k]
     if isinstance(e, ast.BoolOp):
         if isinstance(e.op, ast.And):
             for v in e.values:
@@ -162,10 +231,12 @@ def _walk(f, env, avoid=()):
         kinds = NORMAL
         if n.kind == "test" and n.ast is not None and mentions(f, n.ast, lambda x: _is_version(f, x) or _is_max(f, x)):
             try:
-                kinds = {"t"} if _truth(f, n.ast, env) else {"f"}
+                kinds = {"t"} if _truth(f, effective_test(f, n.ast), env) else {"f"}
             except _Crash as c:
                 crash = str(c)
                 continue
+            except Uninterpretable:
+                kinds = NORMAL  # an unknown the caller did not enumerate: both outcomes
         for b, k in g.succ[a]:
             if k in kinds and b not in seen and b not in avoid:
                 seen.add(b)
@@ -245,39 +316,56 @@ def r1(ctx):
         ctx.ob("R1", "_update_request increments RecoveryRequest.version", False, func=upd, node=upd.node, instance="write:missing",
                message="_update_request never writes the retry counter: retries are unbounded")
         _blocked(ctx, "R1", "every write of version in _update_request is `+= 1`", upd)
-    guards = [n for n in g.nodes.values() if n.kind == "test" and mentions(upd, n.ast, lambda x: _is_version(upd, x))]
-    ctx.require(bool(guards), "C17.R1: no guard over `version` in _update_request")
+    guards = [n for n in g.nodes.values() if n.kind == "test" and n.ast is not None and mentions(upd, n.ast, lambda x: _is_version(upd, x))]
+    gnode = guards[0].ast if guards else upd.node  # (no guard at all: the tabulation below reports the unbounded increment)
+    # atoms of the guards that are neither the counter nor the limit: a flag, a comparison of names, a
+    # call ...  They range over both truth values (a parameter: over the values its call sites bind), so
+    # that a path on which the bound is not tested shows up as an increment for an exhausted valuation.
+    free: dict = {}
+    for n in g.nodes.values():
+        if n.kind == "test" and n.ast is not None and mentions(upd, n.ast, lambda x: _is_version(upd, x) or _is_max(upd, x)):
+            _free_atoms(upd, effective_test(upd, n.ast), free)
+    keys = sorted(free, key=lambda k: unparse(free[k]))
+    if len(keys) > 6:
+        valuations = [{}]  # too many unknowns: such tests branch both ways
+    else:
+        doms = [sorted(param_truth_domain(p, upd, k[1])) if k[0] == "param" else [False, True] for k in keys]
+        valuations = [dict(zip(keys, bits)) for bits in itertools.product(*doms)]
     raises = [n for n in g.nodes.values() if n.kind == "raise_stmt"]
     bad_inc = bad_ret = bad_skip = crash = None
     exhausted_raises: set[int] = set()
-    for env in ENVS:
-        reach, cr = _walk(upd, env)
-        if cr is not None:
-            crash = crash or (env, cr)
-            continue
-        if _allowed(env):
-            r2_, _ = _walk(upd, env, avoid=incs)
-            if g.exit in r2_:
-                bad_skip = bad_skip or env
-        else:
-            if any(i in reach for i in incs):
-                bad_inc = bad_inc or env
-            if g.exit in reach:
-                bad_ret = bad_ret or env
-            exhausted_raises |= {n.id for n in raises if n.id in reach}
+    for env0 in ENVS:
+        for fv in valuations:
+            env = dict(env0, free=fv)
+            reach, cr = _walk(upd, env)
+            if cr is not None:
+                crash = crash or (env, cr)
+                continue
+            if _allowed(env):
+                r2_, _ = _walk(upd, env, avoid=incs)
+                if g.exit in r2_:
+                    bad_skip = bad_skip or env
+            else:
+                if any(i in reach for i in incs):
+                    bad_inc = bad_inc or env
+                if g.exit in reach:
+                    bad_ret = bad_ret or env
+                exhausted_raises |= {n.id for n in raises if n.id in reach}
 
     def fmt(env):
-        return f"max_retries={env['max']}, version={env['version']}"
+        extra = "".join(f", `{unparse(free[k])}` {'true' if v else 'false'}" for k, v in (env.get("free") or {}).items())
+        return f"max_retries={env['max']}, version={env['version']}{extra}"
 
-    ctx.ob("R1", "the guard can be evaluated for every (max_retries, version)", crash is None, func=upd, node=guards[0].ast, instance="guard:total",
+    ctx.ob("R1", "the guard can be evaluated for every (max_retries, version)", crash is None, func=upd, node=gnode, instance="guard:total",
            message=f"the guard raises TypeError for {fmt(crash[0])} (`{crash[1]}`)" if crash else "")
-    ctx.ob("R1", "no increment once version >= max_retries", bad_inc is None, func=upd, node=guards[0].ast, instance="guard:bound",
-           message=f"the counter is incremented and the job re-run for {fmt(bad_inc)}: more than max_retries executions" if bad_inc else "")
-    ctx.ob("R1", "exhausted retries never return normally", bad_ret is None, func=upd, node=guards[0].ast, instance="guard:raise",
+    ctx.ob("R1", "no increment once version >= max_retries", bad_inc is None, func=upd, node=gnode, instance="guard:bound",
+           message=f"the counter is incremented and the job re-run for {fmt(bad_inc)}: the retry is permitted on a path that does not test "
+           "the bound (more than max_retries executions)" if bad_inc else "")
+    ctx.ob("R1", "exhausted retries never return normally", bad_ret is None, func=upd, node=gnode, instance="guard:raise",
            message=f"_update_request returns normally for {fmt(bad_ret)}: the recovery proceeds although the retries are exhausted" if bad_ret else "")
-    ctx.ob("R1", "a permitted retry is always counted", bad_skip is None, func=upd, node=guards[0].ast, instance="guard:counted",
+    ctx.ob("R1", "a permitted retry is always counted", bad_skip is None, func=upd, node=gnode, instance="guard:counted",
            message=f"_update_request can return without incrementing version for {fmt(bad_skip)}: retries are not counted (unbounded)" if bad_skip else "")
-    ctx.require(bool(exhausted_raises) or bad_ret is not None, "C17.R1: no raise statement on the exhausted branch of _update_request")
+    ctx.require(bool(exhausted_raises) or bad_ret is not None or crash is not None, "C17.R1: no raise statement on the exhausted branch of _update_request")
     if not exhausted_raises:
         _blocked(ctx, "R1", "exhaustion raises an UnrecoverableWorkflowException", upd)
     for i in sorted(exhausted_raises):
@@ -519,10 +607,152 @@ def r5(ctx):
     check_defined(ctx, "R5", names, classes=[RFM, REQ])
 
 
-RULES = [("R1", r1), ("R2", r2), ("R3", r3), ("R4", r4), ("R5", r5)]
-FLOORS = {"R1": 10, "R2": 6, "R3": 3, "R4": 2, "R5": 14}
+# --------------------------------------------------------------------------- R6
+
+DECORATOR = f"{REC}.recoverable"
+STEP_CLS = "streamflow.core.workflow.Step"
+_CANCEL_ONLY = {"CancelledError", "KeyboardInterrupt", "SystemExit", "GeneratorExit"}
+
+
+def _cancel_handlers(g) -> set[int]:
+    out = set()
+    for n in g.nodes.values():
+        if n.kind == "handler":
+            names = handler_names(n.ast)
+            if names is not None and set(names) <= _CANCEL_ONLY:
+                out.add(n.id)
+    return out
+
+
+def _failure_leak(g, call, commit=()):
+    """Witness path: the call raises (a job failure / exhausted retries) and the function nevertheless
+    reaches its normal exit without passing a node of `commit`.  Handlers that only catch
+    cancellation-like BaseExceptions are not routes of a failure; inside handlers only explicit
+    `raise` statements propagate."""
+    skip = set(commit) | _cancel_handlers(g)
+    for i in g.node_containing(call):
+        for b in succ(g, i, "exc"):
+            if b == g.raise_ or b in skip:
+                continue
+            pth = g.path(b, [g.exit], avoid=skip, kinds=ALL, exc_from=lambda n: n.kind == "raise_stmt")
+            if pth is not None:
+                return [i, *pth]
+    return None
+
+
+def _may_propagate(g, call) -> bool:
+    skip = _cancel_handlers(g)
+    for i in g.node_containing(call):
+        if g.path(i, [g.raise_], avoid=skip, kinds=ALL, exc_from=lambda n, i=i: n.id == i or n.kind == "raise_stmt") is not None:
+            return True
+    return False
+
+
+def _is_failed(p, f, e) -> bool:
+    for o in origins(f, e):
+        o = strip(o)
+        if not (isinstance(o, ast.Attribute) and o.attr == "FAILED" and p.resolve_expr(f.module, o.value) == STATUS):
+            return False
+    return True
+
+
+def _failed_commits(p, f) -> set[int]:
+    """CFG nodes of `f` after which the failure is on record: `await <step>.terminate(Status.FAILED)`, or
+    `<name> = Status.FAILED` when every return reachable from there returns that name and no other
+    assignment of the name is reachable from there."""
+    g = f.cfg
+    out: set[int] = set()
+    for c in f.calls():
+        if isinstance(c.func, ast.Attribute) and c.func.attr == "terminate" and is_awaited(c) and len(c.args) == 1 and not c.keywords and _is_failed(p, f, c.args[0]):
+            out.update(g.node_containing(c))
+    assigns: dict[str, list[tuple[int, bool]]] = {}
+    for n in g.nodes.values():
+        if n.kind == "stmt" and isinstance(n.ast, (ast.Assign, ast.AnnAssign, ast.AugAssign)):
+            tgts = n.ast.targets if isinstance(n.ast, ast.Assign) else [n.ast.target]
+            for t in tgts:
+                for x in ast.walk(t):
+                    if isinstance(x, ast.Name) and isinstance(x.ctx, ast.Store):
+                        plain = isinstance(n.ast, (ast.Assign, ast.AnnAssign)) and x is t and n.ast.value is not None
+                        assigns.setdefault(x.id, []).append((n.id, plain and _is_failed(p, f, n.ast.value)))
+    rets = [n for n in g.nodes.values() if n.kind == "return"]
+    for name, ws in assigns.items():
+        for nid, failed in ws:
+            if not failed:
+                continue
+            after = g.reach([nid], kinds=NORMAL)
+            rr = [r for r in rets if r.id in after]
+            if not rr or g.exit not in after:
+                continue
+            if all(isinstance(r.ast.value, ast.Name) and r.ast.value.id == name for r in rr) and not any(i in after for i, _ in ws):
+                out.add(nid)
+    return out
+
+
+def r6(ctx):
+    """An unrecovered failure (no rollback manager, retries exhausted) fails the workflow: what leaves
+    `FailureManager.recover` leaves its caller, and what leaves a `@recoverable` phase is never turned into a
+    normal return of the calling step method without Status.FAILED being recorded."""
+    p = ctx.prog
+    base = p.func(f"{REC}.FailureManager.recover")
+    impls = [f.qualname for f in p.overrides(f"{REC}.FailureManager", "recover")] or [base.qualname]
+    sites = []
+    for f, c in call_sites(p, impls):
+        recv = unparse(c.func.value) if isinstance(c.func, ast.Attribute) else ""
+        b = bind_args(base.node, c)
+        typed = any(q in impls for q in p.resolve_call(f, c))
+        # (untyped receivers: `recover` is also a method of generated parser classes)
+        if typed or recv.endswith("failure_manager") or (is_awaited(c) and b is not None and len(b) == 3):
+            sites.append((f, c))
+    ctx.require(bool(sites), "C17.R6: no call of FailureManager.recover found")
+    for f, c in sites:
+        leak = _failure_leak(f.cfg, c)
+        ctx.ob("R6", f"{f.qualname}: an exception of failure_manager.recover leaves the caller", leak is None and is_awaited(c), func=f, node=c,
+               instance=f"recover-propagates:{f.qualname}",
+               message=f"{f.qualname}: the exception raised by failure_manager.recover (first failure without a rollback manager, exhausted retries) "
+               "can end in a normal return: the phase looks successful and the workflow does not fail",
+               witness=f.cfg.describe(leak or []))
+    phases = [f for f in funcs_mentioning(p, "recoverable") if any(p.resolve_expr(f.module, d) == DECORATOR for d in f.decorators)]
+    ctx.require(bool(phases), "C17.R6: no function decorated with `recoverable` found")
+    todo = [(f, c, 0) for f, c in call_sites(p, [h.qualname for h in phases], attr_fallback=False)]
+    ctx.require(bool(todo), "C17.R6: no call of a @recoverable phase found")
+    seen = set()
+    while todo:
+        f, c, depth = todo.pop(0)
+        if id(c) in seen:
+            continue
+        seen.add(id(c))
+        g = f.cfg
+        what = unparse(c.func)
+        same = [x for x in f.calls() if unparse(x.func) == what]
+        if len(same) > 1:
+            what += f"#{[id(x) for x in same].index(id(c)) + 1}"
+        if not is_awaited(c):
+            ctx.ob("R6", f"{f.qualname}: `{what}` is awaited or scheduled as a task", any(isinstance(a, ast.Call) and (unparse(a.func).rpartition('.')[2] in ("create_task", "ensure_future", "gather")) for a in _anc(c)),
+                   func=f, node=c, instance=f"phase-failure:{f.qualname}:{what}", message=f"{f.qualname}: `{what}(..)` is neither awaited nor scheduled")
+            continue
+        leak = _failure_leak(g, c, commit=_failed_commits(p, f))
+        ctx.ob("R6", f"{f.qualname}: a failure leaving `{what}` propagates or is recorded as Status.FAILED", leak is None, func=f, node=c,
+               instance=f"phase-failure:{f.qualname}:{what}",
+               message=f"{f.qualname}: an exception leaving `{what}` (unrecovered job failure, exhausted retries) can reach the normal exit without "
+               "`await self.terminate(Status.FAILED)` / a returned Status.FAILED: the step does not end FAILED and the workflow does not fail",
+               witness=g.describe(leak or []))
+        # the exception may leave f: its awaiting callers inherit the obligation (helpers extracted from run())
+        is_run = f.cls is not None and f.name == "run" and p.is_subclass(f.cls.qualname, STEP_CLS)
+        if depth < 2 and not is_run and f.qualname not in impls and _may_propagate(g, c):
+            todo += [(f2, c2, depth + 1) for f2, c2 in call_sites(p, [f.qualname], attr_fallback=False)]
+
+
+def _anc(node):
+    from ..model import ancestors
+
+    return list(ancestors(node))
+
+
+RULES = [("R1", r1), ("R2", r2), ("R3", r3), ("R4", r4), ("R5", r5), ("R6", r6)]
+FLOORS = {"R1": 10, "R2": 6, "R3": 3, "R4": 2, "R5": 14, "R6": 6}
 
 _UPD = f"{RFM}._update_request"
+STEPM = "streamflow.workflow.step"
 _SYNC = f"{RFM}._synchronize_workflows"
 
 VARIANTS = [
@@ -566,7 +796,64 @@ VARIANTS = [
           async def recover(self, job: Job, step: Step, exception: BaseException) -> None:
               await step.run()
       """),
+    # -- R1: a path that counts / permits a retry without testing the bound (seeded change C17/2)
+    V("bound skipped through a flag whose default the callers rely on", FM_FILE, _UPD,
+      "async def _update_request(self, job_name: str) -> None:\n    retry_request = self._retry_requests[job_name]\n    if self.max_retries is None or",
+      "async def _update_request(self, job_name: str, check_limit: bool=False) -> None:\n    retry_request = self._retry_requests[job_name]\n    if not check_limit or self.max_retries is None or", "R1"),
+    V("bound bypassed by an unrelated condition", FM_FILE, _UPD, "    if self.max_retries is None or retry_request.version < self.max_retries:",
+      "    if retry_request.workflow is None or self.max_retries is None or retry_request.version < self.max_retries:", "R1"),
+    V("bound tested only for some job names", FM_FILE, _UPD, "    if self.max_retries is None or retry_request.version < self.max_retries:",
+      "    if self.max_retries is None or not job_name.endswith('/0') or retry_request.version < self.max_retries:", "R1"),
+    V("guard removed", FM_FILE, _UPD, "    if self.max_retries is None or retry_request.version < self.max_retries:", "    if job_name:", "R1"),
+    # -- R6: the unrecovered failure must fail the workflow (seeded changes C17/1, C17/3)
+    V("wrapper re-raises only a different exception", REC_FILE, DECORATOR, "                    logger.exception(ie)\n                raise", "                    logger.exception(ie)\n                    raise", "R6"),
+    V("wrapper logs the failed recovery and returns", REC_FILE, DECORATOR, "                    logger.exception(ie)\n                raise", "                    logger.exception(ie)\n                return", "R6"),
+    V("TransferStep.run failure handler falls through to the default status", STEP_FILE, f"{STEPM}.TransferStep.run",
+      "logger.exception(e)\n            await self.terminate(Status.FAILED)", "logger.exception(e)", "R6", control=True),
+    V("ScheduleStep.run reports a failed schedule as SKIPPED", STEP_FILE, f"{STEPM}.ScheduleStep.run", "await self.terminate(Status.FAILED)", "await self.terminate(Status.SKIPPED)", "R6"),
+    V("_run_job reports an exception as COMPLETED", STEP_FILE, f"{STEPM}.ExecuteStep._run_job", "logger.error(err)\n        job_status = Status.FAILED\n    finally:",
+      "logger.error(err)\n        job_status = Status.COMPLETED\n    finally:", "R6"),
+    V("_run_job overwrites the failure status before returning", STEP_FILE, f"{STEPM}.ExecuteStep._run_job", "    if logger.isEnabledFor(logging.DEBUG):\n        logger.debug(f'{job_status.name} Job",
+      "    job_status = Status.COMPLETED\n    if logger.isEnabledFor(logging.DEBUG):\n        logger.debug(f'{job_status.name} Job", "R6"),
+    V("_run_job returns something else than the recorded status", STEP_FILE, f"{STEPM}.ExecuteStep._run_job", "    return job_status", "    return Status.COMPLETED", "R6"),
+    V("phase called through a helper whose caller swallows the failure", STEP_FILE, None, None, None, "R6", append="""
+      class _LenientTransferStep(TransferStep):
+          async def _one(self, job: Job, token: Token) -> None:
+              await self._run_transfer(job=job, inputs={}, port_name="p", token=token)
+          async def transfer(self, job: Job, token: Token) -> Token:
+              return token
+          async def run(self) -> None:
+              try:
+                  await self._one(None, None)
+              except Exception as e:
+                  logger.exception(e)
+              await self.terminate(Status.COMPLETED)
+      """),
     # benign
+    V("flag parameter that every caller leaves at its checking default", FM_FILE, _UPD,
+      "async def _update_request(self, job_name: str) -> None:\n    retry_request = self._retry_requests[job_name]\n    if self.max_retries is None or",
+      "async def _update_request(self, job_name: str, check_limit: bool=True) -> None:\n    retry_request = self._retry_requests[job_name]\n    if not check_limit or self.max_retries is None or", None),
+    V("guard through a boolean temporary", FM_FILE, _UPD, "    if self.max_retries is None or retry_request.version < self.max_retries:",
+      "    allowed = self.max_retries is None or retry_request.version < self.max_retries\n    if allowed:", None),
+    V("extra conjunct that can only make the guard stricter", FM_FILE, _UPD, "    if self.max_retries is None or retry_request.version < self.max_retries:",
+      "    if job_name in self._retry_requests and (self.max_retries is None or retry_request.version < self.max_retries):", None),
+    V("wrapper re-raises the caught object explicitly", REC_FILE, DECORATOR, "                    logger.exception(ie)\n                raise", "                    logger.exception(ie)\n                raise ie", None),
+    V("failure status through a local", STEP_FILE, f"{STEPM}.TransferStep.run", "await self.terminate(Status.FAILED)", "failure = Status.FAILED\n            await self.terminate(failure)", None),
+    V("_run_job handlers merged", STEP_FILE, f"{STEPM}.ExecuteStep._run_job", "    except FailureHandlingException as err:\n        logger.error(err)\n        job_status = Status.FAILED\n", "", None),
+    V("phase called through a helper, failure recorded by run", STEP_FILE, None, None, None, None, append="""
+      class _StrictTransferStep(TransferStep):
+          async def _one(self, job: Job, token: Token) -> None:
+              await self._run_transfer(job=job, inputs={}, port_name="p", token=token)
+          async def transfer(self, job: Job, token: Token) -> Token:
+              return token
+          async def run(self) -> None:
+              try:
+                  await self._one(None, None)
+              except Exception as e:
+                  logger.exception(e)
+                  await self.terminate(Status.FAILED)
+              await self.terminate(Status.COMPLETED)
+      """),
     V("request through a renamed local", FM_FILE, _UPD,
       "    retry_request = self._retry_requests[job_name]\n    if self.max_retries is None or retry_request.version < self.max_retries:\n        retry_request.version += 1",
       "    req = self._retry_requests[job_name]\n    retry_request = req\n    if self.max_retries is None or req.version < self.max_retries:\n        req.version += 1", None),
